@@ -406,4 +406,21 @@ theorem C13_ble_read_counterexample_refused_omitted :
       ∀ v, (k, v) ∉ bleGet req :=
   ⟨[((1, 12), .refused 3)], (1, 12), 3, by simp, by decide, by simp [bleGet]⟩
 
+/-! ## The status line does not override the body -/
+
+/-- **Whatever status line the accessory chooses (200, 207, 500, ...), the per-characteristic statuses of its JSON body
+    decide**: outside 4xx (where the call fails) and 204 (no body by definition), the outcome of a write is exactly the
+    one the body yields - so `C13_write_no_false_success` / `C13_write_listeners_exact` apply to it unchanged. -/
+theorem C13_write_status_line_irrelevant (readable : List Key) (code : Nat) (resp : Obj)
+    (h4 : ¬ (400 ≤ code ∧ code ≤ 499)) (h204 : code ≠ 204) :
+    (match ipPutHttp readable code (some resp) with
+      | .result r => r.notified = (ipPut readable (some resp)).notified ∧ r.status = (ipPut readable (some resp)).status
+      | .failed => False) := by
+  simp [ipPutHttp, h4, h204]
+
+/-- a 4xx reply never completes as a success, whatever its body says -/
+theorem C13_write_4xx_fails (readable : List Key) (code : Nat) (body : Option Obj) (h : 400 ≤ code ∧ code ≤ 499) :
+    (match ipPutHttp readable code body with | .failed => True | .result _ => False) := by
+  simp [ipPutHttp, h]
+
 end HapVerif.C13
